@@ -72,6 +72,7 @@ def shards(tier):
             out.append({"buf": buf, "fmt": "vmdk-stream", "tuned": True, "lba": lba})
         for cb in (16, 20):
             out.append({"buf": buf, "fmt": "qcow2", "snapview": True, "cb": cb})
+        out.append({"buf": buf, "fmt": "vmdk-sesparse", "tablecache": True})
     return out
 
 
@@ -193,7 +194,55 @@ def _snapview(case, ctx):
                           {"image_bytes": costs[0], "view_bytes": costs[1]})
 
 
+def _tablecache(case, ctx):
+    """200 grain tables of 32 KiB are each touched once, then 1000 sector reads go to two of the late ones in turn: all of it
+    together costs the metadata (twice at most) plus what the requests and the stream buffer account for -- a table that is in
+    use is not fetched again for every request."""
+    from dissect.hypervisor.disk.vmdk import VMDK
+
+    from mc.builders import vmdk as B
+
+    buf = bootstrap.bufsize()
+    ctx.executions += 1
+    ctx.model(case)
+    ctx.sample(case)
+    ctx.outcome("vmdk-sesparse")
+    ctx.nontrivial += 1
+    T, per, unit = 200, 4096, 4096
+    total = T * per
+    units = [t * per + 1 for t in range(T)] + [tl * per + 2 + j for tl in (150, 151) for j in range(40)]
+    placed = {u: (i * 7919) % len(units) for i, u in enumerate(units)}
+    states, slots = _dense_lists(placed, total, DATA, HOLE, fmt="vmdk-sesparse")
+    img = B.build_sesparse(states, slots, 8, 64, total * 8, 0, total, cluster_base=(1 << 29) + 5)
+    model = B.model(states, 8, total * 8, 0, total)
+    fh = img.sparse(log=False)
+    M = img.meta_bytes
+    with ctx.watch(case, 900):
+        v = VMDK(fh)
+        reqs = [((t * per + 1) * unit, 512) for t in range(T)]
+        reqs += [(((150 + k % 2) * per + 2 + (k * 7) % 40) * unit + (k % 8) * 512, 512) for k in range(1000)]
+        allow = 2 * M + 65536
+        for k, (a, n) in enumerate(reqs):
+            ctx.transitions += 1
+            ctx.states += 1
+            v.seek(a)
+            got = v.read(n)
+            if got != model.content(a, n):
+                ctx.violation(case, {"subject": "vmdk-sesparse.table-cache.read", "kind": "mismatch"}, {"offset": a, "request": k})
+                return
+            allow += 2 * n + 2 * buf
+            if fh.bytes_requested > allow:
+                ctx.violation(case, {"subject": "vmdk-sesparse.io", "kind": "io-bound-exceeded", "request": "table-in-use-fetched-again"},
+                              {"read_bytes_so_far": fh.bytes_requested, "bound": allow, "metadata_bytes": M, "after_request": k,
+                               "tables": T})
+                return
+        ctx.maxi("tablecache_cost_over_bound_permille", int(1000 * fh.bytes_requested / allow))
+
+
 def run_shard(shard, ctx):
+    if shard.get("tablecache"):
+        run_case({"tablecache": True}, ctx)
+        return
     if shard.get("snapview"):
         run_case({"snapview": True, "cb": shard["cb"]}, ctx)
         return
@@ -382,6 +431,8 @@ def run_case(case, ctx):
         return _tuned(case, ctx)
     if case.get("snapview"):
         return _snapview(case, ctx)
+    if case.get("tablecache"):
+        return _tablecache(case, ctx)
     fmt, scale, place, density = case["fmt"], case["scale"], case["place"], case["density"]
     f = FORMATS[fmt]
     unit = f["unit"]
